@@ -229,12 +229,42 @@ def _edit_unit(unit):
     return acc
 
 
+def history_layer(ctx):
+    """serial, ONE process, fresh lexer/parser per input: every atom pair, every built-in / near-miss call and the edit corpus,
+    first in order and then in reverse; the outcome of a string must be the same in both passes (module-level state such as a
+    function table that is written to, memo tables, counters)."""
+    from vt.refparse import REF_FUNCTIONS
+    texts = [a + b for a in ATOMS for b in ATOMS]
+    for name in REF_FUNCTIONS:
+        bare = name.split(".")[-1]
+        for head in (name, bare, "geo." + bare, "ns." + bare):
+            for args in ("()", "(a)", "(a, b)", "(a, b, c)"):
+                texts.append(head + args)
+    texts += corpus()
+    first = {}
+    for t in texts:
+        first.setdefault(t, run_one(t, ODataLexer(), ODataParser()))
+        ctx.count("executions")
+    n = 0
+    for t in reversed(texts):
+        oc = run_one(t, ODataLexer(), ODataParser())
+        ctx.count("executions")
+        n += 1
+        if oc != first[t]:
+            ctx.violation("history:outcome-changed:%s->%s" % (first[t][0], oc[0]), {"layer": "history", "text": t, "first_pass": list(first[t]), "second_pass": list(oc),
+                                                                                 "outcome": oc[0], "detail": "same string, different outcome later in the same process"})
+    return len(texts)
+
+
 def run(ctx):
     # 1. strings
     k = 3 if ctx.quick else 4
     for kk in range(1, k + 1):
         ctx.pmap(_string_unit, [(kk, a) for a in ATOMS] if kk > 1 else [(1, a) for a in ATOMS])
     ctx.layer("strings", atoms=len(ATOMS), max_atoms=k, inputs=sum(len(ATOMS) ** i for i in range(1, k + 1)), exhaustive=True)
+
+    nh = history_layer(ctx)
+    ctx.layer("history", texts=nh, passes=2, exhaustive=True)
 
     # 2. LR configurations
     depth = 5 if ctx.quick else 7
@@ -291,6 +321,10 @@ def replay(ctx, case):
         _, out = lrx.run_prefix(ODataParser(), entries)
         oc = lrx.outcome_class(out)
         return {"text": case["text"], "outcome": oc, "ok": oc == "node" or oc.startswith("lib:")}
+    elif case["layer"] == "history":
+        acc = Acc()
+        history_layer(acc)
+        return {"violations": acc.violations[:5], "ok": not acc.violations}
     else:
         text = case["text"]
     oc = run_one(text)
